@@ -28,6 +28,7 @@ from .runner import PropertyCheck, case_key
 FRAMES = ['icrs', 'fk5', 'fk4', 'galactic']
 PROJS = ['TAN', 'SIN', 'CAR']
 ARCSEC = 1.0 / 3600.0
+HISTORY_P = 0.4                      # fraction of cases whose region / WCS objects have a history (see 'history mode')
 BAND = Fraction(1, 10 ** 6)          # relative distance to the boundary below which membership is not compared
 OPS = {'and': operator.and_, 'or': operator.or_, 'xor': operator.xor}
 OPNAME = {'and_': 'and', 'or_': 'or', 'xor': 'xor'}
@@ -533,18 +534,207 @@ def _finite(*arrs):
     return all(np.all(np.isfinite(np.asarray(a, dtype=float))) for a in arrs)
 
 
+# ------------------------------------------------------------------ history mode
+#
+# A conversion must depend only on the CURRENT parameters of the region and the CURRENT state of the WCS.  With some
+# probability a case therefore has a history: the region object is first built with other parameters and/or the WCS object
+# with other settings, converted / queried once ("warm"), then the parameters are re-assigned through the public setters
+# and/or the WCS is edited in place, the first result is mutated by the "caller", and only then the conversion that is
+# compared with the model / oracle (which know only the final parameters and the final WCS) is performed.
+
+SIZE_DESC_KEYS = ('r', 'w', 'h', 'r1', 'r2', 'w1', 'w2', 'h1', 'h2')
+PAIRS = [('inner_radius', 'outer_radius'), ('inner_width', 'outer_width'), ('inner_height', 'outer_height')]
+
+
+def warm_wcs_desc(rng, wd, keep_parity=False):
+    """another setting of the SAME WCS object (same projection and frame): rotation, pixel size, reference pixel and
+    reference value differ; the pixel size only shrinks so that every position stays inside the projection's domain."""
+    w = dict(wd)
+    w['rot'] = rng.uniform(-180.0, 180.0)
+    w['scale'] = wd['scale'] * rng.choice([0.5, 0.7, 0.9, 1.0])
+    w['crpix'] = [wd['crpix'][0] + float(rng.randint(-40, 40)), wd['crpix'][1] + float(rng.randint(-40, 40))]
+    w['lon0'] = (wd['lon0'] + rng.uniform(-1, 1) * 20 * wd['scale']) % 360.0
+    w['lat0'] = max(-85.0, min(85.0, wd['lat0'] + rng.uniform(-1, 1) * 20 * wd['scale']))
+    if not keep_parity:
+        w['parity'] = rng.choice([1, -1])
+    return w
+
+
+def edit_wcs_inplace(w, d):
+    """bring an existing WCS object to the settings `d` (what a user does with `w.wcs.cdelt = …; w.wcs.set()`)."""
+    w.wcs.crval = [d['lon0'], d['lat0']]
+    w.wcs.crpix = list(d['crpix'])
+    th = math.radians(d['rot'])
+    w.wcs.cdelt = [-d['scale'] * d['parity'], d['scale']]
+    w.wcs.pc = [[math.cos(th), -math.sin(th)], [math.sin(th), math.cos(th)]]
+    w.wcs.set()
+
+
+def _has_kind(d, kind):
+    if d['kind'] == 'compound':
+        return _has_kind(d['a'], kind) or _has_kind(d['b'], kind)
+    return d['kind'] == kind
+
+
+def warm_desc(rng, d, wd, space, top=True, shift=None, f=None):
+    """the same expression with other numeric parameters (positions moved by one common shift, sizes scaled by one common
+    factor, angles redrawn); a top-level simple region may also get other dictionaries."""
+    if top:
+        if space == 'pix' and _has_kind(d, 'regular_polygon'):
+            return None       # assigning centre/radius/angle of a RegularPolygonPixelRegion does not move its vertices (not C06/C07's business)
+        step = min(80.0, field_radius(wd) / 2)
+        if space == 'sky':
+            shift = (rng.uniform(-1, 1) * step * wd['scale'], rng.uniform(-1, 1) * step * wd['scale'])
+        else:
+            shift = (float(rng.randint(-40, 40)), rng.uniform(-40, 40))
+        f = rng.choice([0.4, 0.75, 1.0, 1.5, 2.5])
+    w = copy.deepcopy(d)
+    if d['kind'] == 'compound':
+        w['a'] = warm_desc(rng, d['a'], wd, space, False, shift, f)
+        w['b'] = warm_desc(rng, d['b'], wd, space, False, shift, f)
+        return w
+
+    def mv(p):
+        if space == 'sky':
+            return [(p[0] + shift[0]) % 360.0, max(-89.0, min(89.0, p[1] + shift[1]))]
+        return [p[0] + shift[0], p[1] + shift[1]]
+    for key in ('c', 'a', 'b'):
+        if key in w and isinstance(w[key], list):
+            w[key] = mv(w[key])
+    if 'v' in w:
+        w['v'] = [mv(q) for q in w['v']]
+    for key in SIZE_DESC_KEYS:
+        if key in w:
+            w[key] = [w[key][0] * f, w[key][1]] if isinstance(w[key], list) else w[key] * f
+    if 'angle' in w:
+        w['angle'] = G.rangle(rng)
+    if 'text' in w:
+        w['text'] = 'warm'
+    if top and rng.random() < 0.5:
+        w['meta'] = gen_meta(rng)
+        w['visual'] = gen_visual(rng, text=(d['kind'] == 'text'))
+        if 'include' in w:
+            w['include'] = w['meta']['include']
+    return w
+
+
+def gen_history(rng, wd, d, space, keep_parity=False):
+    mode = rng.choice(['reassign', 'wcs', 'both', 'same'])
+    h = {'mode': mode, 'warm_region': None, 'warm_wcs': None,
+         'warm_call': rng.choice(['convert', 'convert', 'both', 'contains']) if space == 'sky' else 'convert',
+         'mutate_first': rng.random() < 0.6}
+    if mode in ('reassign', 'both'):
+        h['warm_region'] = warm_desc(rng, d, wd, space)
+    if mode in ('wcs', 'both'):
+        h['warm_wcs'] = warm_wcs_desc(rng, wd, keep_parity)
+    return h
+
+
+def assign_params(reg, fresh):
+    """re-assign every parameter (and the dictionaries) of `reg` through the public setters, taking the values of `fresh`."""
+    from regions import CompoundPixelRegion, CompoundSkyRegion
+    if isinstance(reg, (CompoundPixelRegion, CompoundSkyRegion)):
+        assign_params(reg.region1, fresh.region1)
+        assign_params(reg.region2, fresh.region2)
+        return
+    names = list(reg._params)
+    done = set()
+    for lo, hi in PAIRS:        # keep inner < outer at every moment
+        if lo in names:
+            if getattr(fresh, hi) > getattr(reg, lo):
+                setattr(reg, hi, getattr(fresh, hi))
+                setattr(reg, lo, getattr(fresh, lo))
+            else:
+                setattr(reg, lo, getattr(fresh, lo))
+                setattr(reg, hi, getattr(fresh, hi))
+            done |= {lo, hi}
+    for n in names:
+        if n not in done:
+            setattr(reg, n, getattr(fresh, n))
+    reg.meta = fresh.meta
+    reg.visual = fresh.visual
+
+
+def mutate_result(reg):
+    """what a caller may do with a region it got back: change it in place."""
+    from regions import CompoundPixelRegion, CompoundSkyRegion, PixCoord
+    if isinstance(reg, (CompoundPixelRegion, CompoundSkyRegion)):
+        mutate_result(reg.region1)
+        mutate_result(reg.region2)
+    else:
+        for name in ('center', 'vertices', 'start', 'end'):
+            pc = getattr(reg, name, None)
+            if isinstance(pc, PixCoord) and name in reg._params:
+                pc.x = pc.x + 17.0
+                pc.y = pc.y - 9.0
+    try:
+        reg.meta['label'] = 'mutated by the caller'
+        reg.meta['include'] = not reg.meta.get('include', True)
+        reg.visual['color'] = 'mutated'
+    except Exception:
+        pass
+
+
+def shared_parts(a, b, path='root'):
+    """mutable parts that two successive results have in common (object identity)."""
+    from regions import CompoundPixelRegion, CompoundSkyRegion, PixCoord
+    out = []
+    if type(a) is not type(b):
+        return out
+    if a.meta is b.meta:
+        out.append(path + '.meta')
+    if a.visual is b.visual:
+        out.append(path + '.visual')
+    if isinstance(a, (CompoundPixelRegion, CompoundSkyRegion)):
+        return out + shared_parts(a.region1, b.region1, path + '.region1') + shared_parts(a.region2, b.region2, path + '.region2')
+    for name in a._params:
+        va, vb = getattr(a, name, None), getattr(b, name, None)
+        if isinstance(va, PixCoord) and va is vb:
+            out.append(f'{path}.{name}')
+    return out
+
+
+def run_history(h, build, d, wcs, wd, convert, contains=None):
+    """build the region object with its history and return (object, notes).  `build(desc)` makes the object, `convert(obj)`
+    is the conversion under test, `contains(obj)` (optional) a membership query."""
+    notes = {'shared': [], 'warm_exc': None}
+    if h is None:
+        return build(d), None, notes
+    obj = build(h['warm_region'] if h['warm_region'] is not None else d)
+    first = None
+    try:
+        if h['warm_call'] in ('convert', 'both'):
+            first = convert(obj)
+        if h['warm_call'] in ('contains', 'both') and contains is not None:
+            contains(obj)
+    except Exception as e:
+        notes['warm_exc'] = f'{type(e).__name__}: {e}'
+    if h['warm_wcs'] is not None:
+        edit_wcs_inplace(wcs, wd)
+    if h['warm_region'] is not None:
+        assign_params(obj, build(d))
+    if first is not None and h['mutate_first']:
+        mutate_result(first)
+    return obj, first, notes
+
+
 # ------------------------------------------------------------------ the real computation (+ the tables for the model)
 
 def compute(case):
     """-> {'real': canonical real results, 'req': request for the Lean driver}"""
     from regions import PixCoord
     wd = case['wcs']
-    wcs = build_wcs(wd)
+    h = case.get('history')
+    wcs = build_wcs(h['warm_wcs'] if h and h.get('warm_wcs') else wd)
     if case['kind'] == 'pix':
         d = case['region']
-        reg = build_pix(d)
+        reg, first, notes = run_history(h, build_pix, d, wcs, wd, lambda r: r.to_sky(wcs))
+        fresh = build_pix(d)          # what the model and the oracle know: the final parameters only
         try:
             sky = reg.to_sky(wcs)
+            if first is not None:
+                notes['shared'] = shared_parts(first, sky)
+                mutate_result(first)
             back = sky.to_pixel(wcs)
         except Exception as e:
             return {'real': {'exc': f'{type(e).__name__}: {e}'}, 'req': None}
@@ -565,9 +755,14 @@ def compute(case):
         s2p.update(zip(zip(lo.tolist(), la.tolist()), zip(np.ravel(ptsback.x).astype(float).tolist(), np.ravel(ptsback.y).astype(float).tolist())))
         loc = loc_rows(wcs, [sky])
         real['finite'] = _finite([v for k in p2s.values() for v in k], [v for k in s2p.values() for v in k], [v for r in loc.values() for v in r])
-        real['frame_ok'] = True
-        real['margins'] = None
-        req = {'op': 'c06.pix', 'region': model_pix(d, reg), 'wcs': tables_json(p2s, s2p, loc),
+        real['notes'] = notes
+        # independent of the conversion: where the WCS (in its final state) puts the region's (final) positions
+        fp = pix_points(fresh)
+        isc = wcs.pixel_to_world(np.array([q[0] for q in fp], dtype=float), np.array([q[1] for q in fp], dtype=float))
+        ilo, ila = lonlat(isc)
+        real['indep'] = [[float(a), float(b)] for a, b in zip(ilo, ila)]
+        real['conv'] = [[float(a), float(b)] for a, b in sky_points(sky)]
+        req = {'op': 'c06.pix', 'region': model_pix(d, fresh), 'wcs': tables_json(p2s, s2p, loc),
                'pts': [[frac(F(x)), frac(F(y))] for x, y in zip(px, py)]} if real['finite'] else None
         return {'real': real, 'req': req}
     # sky -> pixel -> sky
@@ -576,14 +771,19 @@ def compute(case):
     import astropy.units as u
     d = case['region']
     frame = wcs_to_celestial_frame(wcs)
-    sreg = build_sky(d, frame)
+    pts = case['pts']
+    skypts = SkyCoord([p[0] for p in pts] * u.deg, [p[1] for p in pts] * u.deg, frame=frame)
+    sreg, first, notes = run_history(h, lambda dd: build_sky(dd, frame), d, wcs, wd, lambda r: r.to_pixel(wcs),
+                                     lambda r: r.contains(skypts, wcs))
+    fresh = build_sky(d, frame)
     try:
         pix = sreg.to_pixel(wcs)
+        if first is not None:
+            notes['shared'] = shared_parts(first, pix)
+            mutate_result(first)
         back = pix.to_sky(wcs)
     except Exception as e:
         return {'real': {'exc': f'{type(e).__name__}: {e}'}, 'req': None}
-    pts = case['pts']
-    skypts = SkyCoord([p[0] for p in pts] * u.deg, [p[1] for p in pts] * u.deg, frame=frame)
     pp = PixCoord.from_sky(skypts, wcs)
     ppx, ppy = np.ravel(pp.x).astype(float), np.ravel(pp.y).astype(float)
     if not _finite(pix_points(pix), sky_points(back), ppx, ppy):
@@ -599,7 +799,15 @@ def compute(case):
     s2p.update(zip(zip(lo.tolist(), la.tolist()), zip(ppx.tolist(), ppy.tolist())))
     loc = loc_rows(wcs, [sreg, back])
     real['finite'] = _finite([v for k in p2s.values() for v in k], [v for k in s2p.values() for v in k], [v for r in loc.values() for v in r])
-    req = {'op': 'c06.sky', 'region': model_sky(d, sreg), 'wcs': tables_json(p2s, s2p, loc),
+    real['notes'] = notes
+    fc = fresh
+    ip = []
+    for (lo_, la_) in sky_points(fc):
+        x_, y_ = wcs.world_to_pixel(SkyCoord(lo_ * u.deg, la_ * u.deg, frame=frame))
+        ip.append([float(x_), float(y_)])
+    real['indep'] = ip
+    real['conv'] = [[float(a), float(b)] for a, b in pix_points(pix)]
+    req = {'op': 'c06.sky', 'region': model_sky(d, fresh), 'wcs': tables_json(p2s, s2p, loc),
            'pts': [[frac(F(x)), frac(F(y))] for x, y in zip(lo, la)]} if real['finite'] else None
     return {'real': real, 'req': req}
 
@@ -732,6 +940,7 @@ class Check(PropertyCheck):
             '(circle, ellipse, rectangle, polygon, regular polygon, 3 annuli, point, line, text) and compounds to depth 2, every sky class, '
             'sizes 0.015..240 px, any angle/unit, meta (include in {absent,True,False,1,0}, label/comment/text/name/tag) and visual '
             '(color/linewidth/fontsize/rotation), compound constructors called with explicit and with None dictionaries; '
+            'HISTORY MODE (40% of the cases): the region object is first built with other parameters and/or the WCS object with other settings, converted / queried once, then every parameter is re-assigned through the public setters and/or the WCS is edited in place (crval/crpix/cdelt/pc + set()), the first result is mutated by the caller, and only then the compared conversion is made; the model and the oracle know only the final parameters and the final WCS; two successive results must not share PixCoord/meta/visual objects. '
             'pixel->sky->pixel and sky->pixel->sky; 12 query positions per region (cloud + near-boundary). '
             'Non-trivial = geometry round trip of a region with a size/angle, or a membership comparison with both answers present.')
     assumptions = ['PARTIAL PROOF: the WCS (astropy/wcslib) is a parameter of the model; the round-trip theorems assume toPix and toSky are exactly '
@@ -780,7 +989,10 @@ class Check(PropertyCheck):
     def _pix_case(self, rng, wd, d):
         leaf = self._first_leaf(d)
         pts = query_points(rng, {k: v for k, v in leaf.items() if k not in ('meta', 'visual')}, 12)
-        return {'kind': 'pix', 'wcs': wd, 'region': d, 'pts': [[float(p[0]), float(p[1])] for p in pts]}
+        case = {'kind': 'pix', 'wcs': wd, 'region': d, 'pts': [[float(p[0]), float(p[1])] for p in pts]}
+        if rng.random() < HISTORY_P:
+            case['history'] = gen_history(rng, wd, d, 'pix')
+        return case
 
     def _sky_case(self, rng, wd, wcs, d):
         # query positions: a cloud around the pixel image of the first simple component (the image is used only to
@@ -795,7 +1007,10 @@ class Check(PropertyCheck):
         pts = query_points(rng, pd, 12)
         sc = wcs.pixel_to_world(np.array([p[0] for p in pts], dtype=float), np.array([p[1] for p in pts], dtype=float))
         lo, la = lonlat(sc)
-        return {'kind': 'sky', 'wcs': wd, 'region': d, 'pts': [[float(x), float(y)] for x, y in zip(lo, la)]}
+        case = {'kind': 'sky', 'wcs': wd, 'region': d, 'pts': [[float(x), float(y)] for x, y in zip(lo, la)]}
+        if rng.random() < HISTORY_P:
+            case['history'] = gen_history(rng, wd, d, 'sky')
+        return case
 
     # -------------------------------------------------------------- real / model
     def real(self, case):
@@ -863,6 +1078,18 @@ class Check(PropertyCheck):
         else:
             start, mid, back = real['start'], real['pix'], real['back']
             unit = 'sky'
+        notes = real.get('notes') or {}
+        hist = case.get('history')
+        htxt = f' [history: {hist["mode"]}, warm call {hist["warm_call"]}, first result mutated: {hist["mutate_first"]}]' if hist else ''
+        if notes.get('shared'):
+            bad('results_share_state', f'two successive conversions of the same object return regions sharing {notes["shared"]}{htxt}')
+        # the converted positions are the WCS images of the CURRENT positions under the CURRENT WCS (independent evaluation)
+        size0 = region_size(mid)
+        scale_as0 = case['wcs']['scale'] * 3600.0
+        for p_conv, p_ind in zip(real.get('conv', []), real.get('indep', [])):
+            if self._pos_off([Fraction(v) for v in p_conv], [Fraction(v) for v in p_ind], 'sky' if case['kind'] == 'pix' else 'pix', size0, scale_as0):
+                bad('position_not_wcs_image', f'converted position {p_conv} but the WCS maps the current position to {p_ind}{htxt}')
+                break
         f2 = has_nonempty_compound_dict(start)
         lost = []
         self._compare(start, back, unit, case, bad, lost, 'roundtrip')
@@ -989,7 +1216,8 @@ class Check(PropertyCheck):
     def bucket(self, case, real):
         if isinstance(real, dict) and not real.get('finite', True):
             return f"{case['kind']}/outside-wcs-domain"
-        return f"{case['kind']}/{case['region']['kind']}/{case['wcs']['proj']}"
+        h = case.get('history')
+        return f"{case['kind']}/{case['region']['kind']}/{case['wcs']['proj']}/{'history-' + h['mode'] if h else 'fresh'}"
 
 
 def min_dim(d):
